@@ -89,6 +89,11 @@ SPECIAL = {
     "module_generics_in_different_orders": ("#[::entrait::entrait(pub Tr)] pub mod m { pub fn g<B: Default + ::core::fmt::Display, A: Default + ::core::fmt::Display>(deps: %s) -> String { format!(\"{}{}\", A::default(), B::default()) } "
                                             "pub fn f<A: Default + ::core::fmt::Display, B: Default + ::core::fmt::Display>(deps: %s) -> String { format!(\"{}{}\", A::default(), B::default()) } }" % (ANYD, ANYD),
                                             ['let app = ::entrait::Impl::new(());', 'rt::out("d", m::f::<u8, bool>(&app)); rt::out("t", Tr::<bool, u8>::f(&app));'], "0false"),
+    # mockable trait (implemented for Impl<T> only) + named dependency parameter + an own type parameter: the function must receive the
+    # very `&Impl<..>` the method was called on (not the application inside it, which deref coercion would also accept)
+    "named_deps_own_generic_mockable": ("#[::entrait::entrait(pub Tr, mockall)] pub fn f<D: ::core::any::Any + Sync, U: Default + ::core::fmt::Display>(deps: &D, a: i64) -> String "
+                                        "{ format!(\"{}{}{}\", ::core::any::type_name::<D>().contains(\"Impl<\"), U::default(), a) }",
+                                        ['let app = ::entrait::Impl::new(());', 'rt::out("d", f::<_, u8>(&app, 1)); rt::out("t", Tr::<u8>::f(&app, 1));'], "true01"),
     "body_type_nodeps": ("#[::entrait::entrait(pub Tr, no_deps)] pub fn f<U: Default + ::core::fmt::Display, const N: usize>(a: i64) -> String { format!(\"{}{}{}\", U::default(), N, a) }",
                          ['let app = ::entrait::Impl::new(());', 'rt::out("d", f::<u8, 7>(1)); rt::out("t", Tr::<u8, 7>::f(&app, 1));'], "071"),
 }
